@@ -172,6 +172,163 @@ class Sut:
                 "obs": [list(r.ev) for r in self.recs], "raw": raw.hex() if raw else ""}
 
 
+class WSut(Sut):
+    """the same concrete bursts fed through a real TransmissionWatcher (one Terminal per target radio id)"""
+
+    def __init__(self, rng, observers=(False,)):
+        from okdmr.dmrlib.transmission.transmission_watcher import TransmissionWatcher
+        patch_tokens()
+        _tok[0] = 0
+        self.rng = rng
+        self.recs = [Recorder(self, r) for r in observers]
+        self.watcher = TransmissionWatcher(observers=[r.obs for r in self.recs])
+        self.n = 0
+
+    def project(self):
+        terms = []
+        for tid, term in self.watcher.terminals.items():
+            self.term = term
+            terms.append({"id": tid, "slots": Sut.project(self)["slots"]})
+        return {"terms": terms, "tok": _tok[0]}
+
+    def wstep(self, tgt, ts, b, op):
+        """op: burst (target id set as a transport frame would), guess (target left to the burst's own header field),
+        notarget (target 0, nothing to guess from), endall"""
+        from okdmr.dmrlib.etsi.layer2.burst import Burst
+        self.n += 1
+        b = dict(b)
+        b["id"] = self.n
+        for r in self.recs:
+            r.ev.clear()
+        out = {"ev": [], "label": "Unknown", "seq": 0, "stream": 0, "outcome": "ok"}
+        returned = False
+        try:
+            with contextlib.redirect_stdout(io.StringIO()), contextlib.redirect_stderr(io.StringIO()):
+                if op == "endall":
+                    self.watcher.end_all_transmissions()
+                else:
+                    if op == "guess":
+                        raw, bt = self.build_to(b, tgt)
+                    else:
+                        raw, bt = self.build(b)
+                    burst = Burst.from_bytes(raw, burst_type=bt)
+                    burst.timeslot = ts
+                    if op == "burst":
+                        burst.target_radio_id = tgt
+                    res = self.watcher.process_burst(burst)
+                    if res is not None:
+                        returned = True
+                        out["label"] = res.voice_burst.name.replace("VoiceBurst", "")
+                        out["seq"] = res.sequence_no
+                        out["stream"] = int.from_bytes(res.stream_no, "big")
+        except Exception as ex:  # noqa
+            out["outcome"] = "raise:" + type(ex).__name__
+        out["ev"] = list(self.recs[0].ev)
+        ab = {"cls": b["cls"], "id": b["id"], "btf": b["btf"], "a": bool(b["a"]), "cc": b["cc"]}
+        return {"tgt": tgt, "ts": ts, "op": "burst" if op == "guess" else op, "b": ab, "out": out, "post": self.project(),
+                "obs": [list(r.ev) for r in self.recs], "returned": returned}
+
+    def build_to(self, b, tgt):
+        """a data header / preamble CSBK whose own destination field names the target"""
+        from okdmr.dmrlib.etsi.layer2.elements.burst_types import BurstTypes
+        from okdmr.dmrlib.etsi.layer2.elements.data_types import DataTypes
+        rng, i, cc = self.rng, b["id"], b["cc"]
+        sync = rng.choice(gen.DATA_SYNCS)
+        if b["cls"] == "DH":
+            fmt = rng.choice(["C", "U"]) if not b["a"] else "C"
+            h = gen.data_header(rng, fmt, btf=b["btf"], a=b["a"], llid_source=i, llid_destination=tgt)
+            return gen.assemble_data_burst(h, DataTypes.DataHeader, cc, sync), BurstTypes.DataAndControl
+        return gen.assemble_data_burst(gen.preamble_csbk(rng, b["btf"], source_address=i, target_address=tgt), DataTypes.CSBK, cc, sync), BurstTypes.DataAndControl
+
+
+def run_whistory(args):
+    """worker: replay one abstract watcher history [(tgt, ts, op, b)] on a fresh TransmissionWatcher"""
+    seed, observers, steps = args
+    import random
+    core.setup_repo_path()
+    sut = WSut(random.Random(seed), observers)
+    return {"init": {}, "ev": [sut.wstep(tgt, ts, b or NOB, op) for tgt, ts, op, b in steps]}
+
+
+def random_whistory(rng, n):
+    """interleaved traffic towards 2..4 targets on both timeslots, some bursts without a target, occasional end_all"""
+    targets = rng.sample([1, 2, 77, 2 ** 24 - 1, 1234567, 9990], rng.randrange(2, 5))
+    cc = rng.randrange(16)
+    steps = []
+
+    def letter(cls, **kw):
+        b = {"cls": cls, "id": 0, "btf": 0, "a": False, "cc": cc}
+        b.update(kw)
+        return b
+
+    pending = {}      # (tgt, ts) -> queued letters of a well-formed fragment
+    while len(steps) < n:
+        r = rng.random()
+        tgt, ts = rng.choice(targets), rng.choice([1, 2])
+        if r < 0.03:
+            steps.append((0, 1, "endall", None))
+        elif r < 0.10:
+            steps.append((0, ts, "notarget", letter(rng.choice(["VH", "TERM", "VS", "VE", "R12", "R34", "R1", "OTHER"]))))
+        elif r < 0.16:
+            cls = rng.choice(["DH", "PRE"])
+            steps.append((tgt, ts, "guess", letter(cls, btf=rng.choice([0, 1, 2, 3]), a=cls == "DH" and rng.random() < 0.5)))
+        else:
+            q = pending.get((tgt, ts))
+            if not q:
+                k = rng.random()
+                if k < 0.3:      # voice call
+                    q = [letter("VH")] + [letter(c) for _ in range(rng.randrange(0, 3)) for c in ["VS"] + ["VE"] * 5]
+                    if rng.random() < 0.7:
+                        q.append(letter("TERM"))
+                elif k < 0.6:    # data transmission
+                    btf = rng.choice([1, 2, 3])
+                    rate = rng.choice(["R12", "R34", "R1"])
+                    q = [letter("PRE", btf=btf + 1)] * rng.choice([0, 1]) + [letter("DH", btf=btf, a=rng.random() < 0.5)] + \
+                        [letter(rate) for _ in range(btf + rng.choice([0, 0, -1, 1]))]
+                else:
+                    q = [letter(rng.choice(["VH", "TERM", "VS", "VE", "DH", "PRE", "CSBK", "R12", "R34", "R1", "OTHER"]),
+                                btf=rng.choice([0, 1, 2]))]
+                pending[(tgt, ts)] = q
+            steps.append((tgt, ts, "burst", q.pop(0)))
+    return steps
+
+
+def wjudge(ctx, traces, rejects, origin):
+    for tid, l, why in rejects:
+        t = traces[tid]
+        e = t["ev"][l - 1]
+        ctx.violation(f"watcher/{why}/{e['b']['cls'] if e['op'] != 'endall' else 'endall'}",
+                      f"{origin} through TransmissionWatcher: step {l} (target {e['tgt']}, timeslot {e['ts']}, op {e['op']}, "
+                      f"{e['b']['cls']}) breaks {why}; observed out={json.dumps(e['out'])}",
+                      {"wsteps": t.get("steps"), "upto": l, "observers": t.get("observers"), "seed": t.get("seed"), "clause": why,
+                       "origin": origin})
+
+
+def watcher_phase(ctx):
+    """growth beyond the per-terminal statement: the same tracker reached through TransmissionWatcher (spec/Watcher.tla)"""
+    n, ln = (120, 150) if ctx.quick else (2000, 400)
+    jobs = []
+    for i in range(n):
+        steps = random_whistory(ctx.rng, ctx.rng.randrange(10, ln))
+        obs = tuple(ctx.rng.random() < 0.3 for _ in range(ctx.rng.randrange(1, 3)))
+        jobs.append((ctx.seed * 104729 + i, obs, steps))
+    with Pool(core.NCPU) as pool:
+        hist = pool.map(run_whistory, jobs, chunksize=4)
+    nev = 0
+    for tr, j in zip(hist, jobs):
+        tr["seed"], tr["observers"], tr["steps"] = j[0], list(j[1]), j[2]
+        for e in tr["ev"]:
+            e.pop("returned")
+            nev += 1
+            ctx.count(core.digest(["w", e["op"], e["b"]["cls"], e["out"]["ev"], len(e["post"]["terms"])]))
+    ctx.note("watcher_histories", len(hist))
+    ctx.note("watcher_steps", nev)
+    ctx.sample({"watcher_history_prefix": hist[0]["ev"][:2]})
+    for part in core.chunks(hist, 100):
+        rej = ctx.validate_traces("Trace_Watcher", "Trace_Watcher.cfg", part)
+        wjudge(ctx, part, rej, "random history")
+
+
 NOB = {"cls": "OTHER", "id": 0, "btf": 0, "a": False, "cc": 0}
 
 
@@ -441,10 +598,21 @@ def run(ctx):
     for part in core.chunks(hist, 200):
         rej = ctx.validate_traces("Trace_Transmission", "Trace_Transmission.cfg", part)
         judge(ctx, part, rej, "random history")
+    watcher_phase(ctx)
 
 
 def replay(ctx, rec):
     r = rec["record"]
+    if r.get("wsteps"):
+        tr = run_whistory((r.get("seed") or 1, tuple(r.get("observers") or (False,)), [tuple(x) for x in r["wsteps"][:r["upto"]]]))
+        for e in tr["ev"]:
+            e.pop("returned")
+        rej = ctx.validate_traces("Trace_Watcher", "Trace_Watcher.cfg", [tr])
+        if rej:
+            print(f"VIOLATION property=C08 replay=(given) why={rej[0][2]} step={rej[0][1]}")
+            return 1
+        print("replay: property holds on this watcher history")
+        return 0
     tr = run_history((r.get("seed") or 1, tuple(r.get("observers") or (False,)),
                       [(s[0], s[1], s[2] if s[1] == "burst" else None) for s in r["steps"]]))
     rej = ctx.validate_traces("Trace_Transmission", "Trace_Transmission.cfg", [tr])
